@@ -223,8 +223,8 @@ class Sim:
         if settle:
             self.settle()
 
-    def read_error(self, cid, settle=True):
-        self.conns[cid].reader.set_exception(ConnectionResetError("simulated reset"))
+    def read_error(self, cid, settle=True, exc=None):
+        self.conns[cid].reader.set_exception(exc or ConnectionResetError("simulated reset"))
         if settle:
             self.settle()
 
